@@ -1078,17 +1078,46 @@ class Executor:
         self.become(st, j)
 
     def _infeasible(self, st: State, c) -> bool:
+        """refutation of `pc and c` by a solver *process* with a hard timeout (an in-process check with a soft timeout can hang
+        inside the string solver); anything but `unsat` keeps the branch"""
+        import os
+        import subprocess
+        import tempfile
+
+        from .solve import Z3NEW
+
+        # pruning is an optimisation with a budget: the decisive prunes are the early ones (entry assumption vs. the first tests)
+        n = getattr(self, "_prune_n", 0)
+        if n >= 30:
+            return False
+        self._prune_n = n + 1
+        return self._infeasible_run(st, c, Z3NEW)
+
+    def _infeasible_run(self, st: State, c, Z3NEW) -> bool:
+        import os
+        import subprocess
+        import tempfile
+
         sol = z3.Solver()
-        sol.set("timeout", 400)
         for h in self.w.axioms:
             sol.add(h)
         for h in st.pc:
             sol.add(h)
         sol.add(c)
+        fd, path = tempfile.mkstemp(suffix=".smt2", prefix="pyvc_prune_")
         try:
-            return sol.check() == z3.unsat
-        except z3.Z3Exception:
-            return False
+            with os.fdopen(fd, "w") as f:
+                f.write(sol.to_smt2())
+            try:
+                p = subprocess.run([Z3NEW, "-T:2", path], capture_output=True, text=True, timeout=4)
+            except subprocess.TimeoutExpired:
+                return False
+            return p.stdout.strip().splitlines()[:1] == ["unsat"]
+        finally:
+            try:
+                os.unlink(path)
+            except OSError:
+                pass
 
     def become(self, st: State, j: State):
         st.env, st.bound, st.heap, st.ghost, st.pc, st.nalloc = j.env, j.bound, j.heap, j.ghost, j.pc, j.nalloc
